@@ -256,6 +256,10 @@ func (m *LinearMinting) CalculateInflation(totalSupply math.Int, minterStart tim
 		return sdk.ZeroDec()
 	}
 
+	if endTime != nil && (blockTime.Equal(*endTime) || blockTime.After(*endTime)) {
+		return sdk.ZeroDec()
+	}
+
 	periodDuration := endTime.Sub(minterStart)
 	mintedYearly := sdk.NewDecFromInt(m.Amount).MulInt64(int64(year)).QuoInt64(int64(periodDuration))
 	return mintedYearly.QuoInt(totalSupply)
